@@ -508,7 +508,11 @@ def parseLeader(raw, eols=(CRLF, LF), kind="leader header line", headers=None):
         del raw[:index] # remove used bytes
         if line:
             line = line.decode('iso-8859-1')  # convert to unicode string
-            key, value = line.split(': ', 1)
+            key, sep, value = line.partition(':')
+            if not sep:  # malformed so let message parser report not crash
+                raise HTTPException("Malformed header line '{0}'".format(line[:64]))
+            if value[:1] == ' ':  # space after colon is optional
+                value = value[1:]
             headers[key] = value
 
         if len(headers) > MAX_HEADERS:
@@ -564,7 +568,7 @@ def parseChunk(raw):  # reading transfer encoded raw
     size = size.strip()
     if not size or size.strip(b'0123456789abcdefABCDEF'):  # chunk-size = 1*HEX
         # int(size, 16) alone would accept sign, 0x prefix and underscores
-        raise ValueError("Invalid chunk size '{0}'".format(size.decode('iso-8859-1')))
+        raise HTTPException("Invalid chunk size '{0}'".format(size[:64].decode('iso-8859-1')))
     size = int(size.decode('ascii'), 16)
 
     if exts:  # parse extensions parameters
@@ -603,8 +607,8 @@ def parseChunk(raw):  # reading transfer encoded raw
             (yield None)
 
         if line:  # not empty so raise error
-            raise ValueError("Chunk end error. Expected empty got "
-                     "'{0}' instead".format(line.decode('iso-8859-1')))
+            raise HTTPException("Chunk end error. Expected empty got "
+                     "'{0}' instead".format(line[:64].decode('iso-8859-1')))
 
     (yield (size, parms, trails, chunk))
     return
